@@ -296,6 +296,9 @@ def step (st : St) (ws : List String) : St × String :=
         (st, if (sel == "new" || sel == "old") && !liveL.isEmpty then "some" else "none")
       else if !okSel then (st, "bad-selection " ++ u)
       else if needsFirst x u then (st, "done " ++ u ++ " yes")
+      -- whether the call can be held between its reads is mechanism (the hook point may be compiled out by a
+      -- rewrite of NeedsTable as one expression): an answer given at once is the atomic answer
+      else if hint.head? == some "done" then (st, "done " ++ u ++ (if needsTable x u then " yes" else " no"))
       else ({ st with ask := some (i, u) }, "parked " ++ u)
   | ["askresume"] =>
     match st.ask with
